@@ -46,6 +46,8 @@ def cases(tier, seed):
         base += designs.expr_cases(300, seed, n=8, maxw=5) + designs.seq_cases(widths=(1, 4, 8)) + designs.misc_cases()
         base += [{'fam': 'MISC', 'kind': 'rtl_assert', 'w': 2}, {'fam': 'MISC', 'kind': 'rtl_assert', 'w': 3}]
     base += [{'fam': 'C11X', 'kind': 'same_name_roms'}, {'fam': 'C11X', 'kind': 'generator_twice'}]
+    # declared but unconnected Inputs are part of the interface
+    base += [dict(c, spare=1 + i % 2) for i, c in enumerate(designs.op_cases([3], ops='w+x', mul_max=0))]
     for i, c in enumerate(base):
         for f in FUNCS:
             # 'foreign': the source is passed as block= while an unrelated block is the working block
@@ -244,6 +246,9 @@ def run_case(case, ob, tier):
     amems = {id(n.op_param[1]) for n in A.logic_subset('m@')}
     bmems = {id(n.op_param[1]) for n in B.logic_subset('m@')}
     ob.fact('no-shared-memory-objects', not (amems & bmems), site + ':shared-mems')
+    if case['func'] in ('copy', 'opt', 'synth'):
+        sig = lambda blk: sorted((w.name, w.bitwidth, type(w).__name__) for w in blk.wirevector_subset((pyrtl.Input, pyrtl.Output)))
+        ob.fact('result-has-the-interface-of-the-source', sig(A) == sig(B), site + ':interface', detail=[sig(A), sig(B)])
     # rtl_assert is part of what the design does when simulated: the result asserts what the source asserts
     if A.rtl_assert_dict:
         bn = {w.name: (w, e) for w, e in B.rtl_assert_dict.items()}
@@ -347,6 +352,8 @@ def replay(cex):
                   'no-shared-memory-objects': not ({id(n.op_param[1]) for n in A.logic_subset('m@')}
                                                    & {id(n.op_param[1]) for n in B.logic_subset('m@')}),
                   'result-memories-registered-with-result': mems_registered(B),
+                  'result-has-the-interface-of-the-source': sorted((w.name, w.bitwidth, type(w).__name__) for w in A.wirevector_subset((pyrtl.Input, pyrtl.Output)))
+                  == sorted((w.name, w.bitwidth, type(w).__name__) for w in B.wirevector_subset((pyrtl.Input, pyrtl.Output))),
                   'assertions-of-the-source-are-assertions-of-the-result': all(
                       any(w2.name == w.name and e2 is e for w2, e2 in B.rtl_assert_dict.items()) for w, e in A.rtl_assert_dict.items()),
                   'register-reset-values-preserved': all(
